@@ -236,6 +236,11 @@ def _child_session(rec):
         if op["op"] == "MOVE":
             x = x + op["sigma"] * torch.randn(x.shape, generator=g) * real
             geom_id += 1
+        elif op["op"] == "RECHARGE":
+            # the caller now asks for ANOTHER charge state of the same geometry (two electrons removed) and - as one does -
+            # starts it from the density at hand, which is a self-consistent density of the wrong electron count
+            ch[int(op["mol"])] += float(op["dq"])
+            geom_id += 1
         elif op["op"] == "FAULT":
             P = carried["P"]
             if P is None:
@@ -394,8 +399,16 @@ def gen_session(rng, closed_only=False, gap_safe=False):
 
     nops = rng.randint(3, 8)
     ops.append({"op": "SOLVE", "cfg": cfg(), "start": "cold", "cap": 1000})
+    recharged = False
     while len(ops) < nops:
         u = rng.random()
+        if not closed_only and not uhf_session and not recharged and u < 0.06:
+            cands = [j for j, b in enumerate(batch) if b in ("h2o", "nh3", "ch4", "h2co", "hf", "c2h4", "hcn", "h2s", "hcl", "sih4")]
+            if cands:
+                recharged = True
+                ops.append({"op": "RECHARGE", "mol": rng.choice(cands), "dq": 2})
+                ops.append({"op": "SOLVE", "cfg": dict(cfg(), conv=rng.choice([[1], [2]]), sp2=[False]), "start": "carried", "cap": 1000})
+                continue
         if u < 0.3:
             ops.append({"op": "MOVE", "sigma": rng.choice([0.005, 0.02, 0.05])})
         elif u < 0.5:
